@@ -171,6 +171,27 @@ def run_case(case):
             one(src, case, std, keep, res)
             n += 1
         res["sample"] = {"kind": "random", "text": src[:200]}
+    elif case["kind"] == "scale":
+        # structured inputs of moderate size: must come back within the time bound
+        from fv.props import c20
+        for name, (genf, k, nq, nt) in sorted(c20.FAMILIES.items()):
+            if name in ("nested-refs", "nonblock-do-distinct-labels", "paren-pow-defined-unary"):
+                continue      # listed exponential families (C20 known findings)
+            src = genf(24)
+            for st_ in ("f2003", "f2008"):
+                if st_ == "f2003" and name == "nested-block":
+                    continue
+                t0 = time.time()
+                try:
+                    o = real.try_parse(src, std=st_, free=True)
+                except engine.CaseTimeout:
+                    raise
+                dt = time.time() - t0
+                n += 1
+                if dt > 20:
+                    res["findings"].append({"signature": "slow:" + name, "what": "%s(24) under %s took %.1fs" % (name, st_, dt),
+                                            "replay": {"case": case, "source": src, "std": st_}})
+        res["sample"] = {"kind": "scale"}
     elif case["kind"] == "utf8":
         d = tempfile.mkdtemp(prefix="fv_c06_")
         try:
@@ -197,7 +218,7 @@ def run_case(case):
 
 
 def cases(tier, seed):
-    out = [{"kind": "probe", "seed": 0}, {"kind": "utf8", "seed": 0}]
+    out = [{"kind": "probe", "seed": 0}, {"kind": "utf8", "seed": 0}, {"kind": "scale", "seed": 0, "_timeout": 120}]
     nb = util.tier_n(tier, 48, 600)
     for i, s in enumerate(util.seeds(seed, nb, 6)):
         out.append({"kind": "mutant", "seed": s, "n": 25, "std": "f2008" if i % 2 else "f2003", "keep": i % 4 == 3, "_timeout": 600})
